@@ -103,12 +103,24 @@ def edge_dominates(f, edge_block, site_block):
     return len(outside) <= 1
 
 
-def reads_field(fx, fn, field):
+def reads_field(fx, fn, field, depth=0, seen=None):
+    """the function (with its closures) reads Interpreter.<field>, itself or through the small predicates / filters it calls
+    (`is_internal_or_loaded(req)`): local callees returning bool or a request list, three levels deep"""
+    seen = seen if seen is not None else set()
+    if fn.path in seen:
+        return False
+    seen.add(fn.path)
     for g in fx.body_group(fn):
         for bi, kind, pl, sp in M.all_places(g):
             for (adt, var, fld) in F.place_fields(pl):
                 if adt in (INTERP, "c09::Interpreter") and fld == field:
                     return True
+        if depth < 3:
+            for bi, t in g.calls():
+                c = fx.fns.get(t[1].get("d")) if t[1].get("local") else None
+                if c is not None and not c.closure and (fx.tys(c.locals[0]) == "bool" or "ImportRequest" in fx.tys(c.locals[0])):
+                    if reads_field(fx, c, field, depth + 1, seen):
+                        return True
     return False
 
 
@@ -338,11 +350,45 @@ def run(tier, fx=None, ck=None, control=False):
     # ------------------------------------------------------------ R4
     ck.rule("R4.requests-once", "every NeedImports list is de-duplicated by resolved path", floor=3)
     guarded_builders = set()   # functions whose returned request list is filled by membership-guarded pushes
-    for p, f in tops.items():
-        if "Vec<ImportRequest>" not in returns_ty(fx, f):
-            continue
+
+    def guarded_pushes(f):
+        """(has pushes, all guarded) for direct pushes of ImportRequest values in f"""
         pushes = [(bi, t) for bi, t in f.calls() if (t[1].get("d") or "").endswith("Vec::<T, A>::push")
                   and t[2] and t[2][0][0] in ("c", "m") and "ImportRequest" in fx.tys(f.locals[t[2][0][1][0]])]
+        allok = True
+        for pb, pt in pushes:
+            ok = False
+            for bi, t in f.calls():
+                if (t[1].get("u") or "").endswith(("Iterator::any", "Iterator::all", "contains")):
+                    te = true_edge(f, bi)
+                    if te and (edge_dominates(f, te[1], pb) or edge_dominates(f, te[0], pb)):
+                        ok = True
+            if not ok:
+                for bi, bl in enumerate(f.blocks):
+                    tt = bl["t"]
+                    if tt[0] == "switch" and tt[1][0] in ("c", "m"):
+                        dd = M.trace_back(f, tt[1][1][0])
+                        if dd and dd[1] == "T" and (dd[2][1].get("u") or "").endswith(("Iterator::any", "Iterator::all")):
+                            if any(f.dominates(tb, pb) for v, tb in tt[2]) or f.dominates(tt[3], pb):
+                                ok = True
+            allok = allok and ok
+        return bool(pushes), allok
+    # helpers `push_unique(list: &mut Vec<ImportRequest>, req)` whose own pushes are all guarded
+    push_helpers = set()
+    for p, f in tops.items():
+        if any("&mut std::vec::Vec<ImportRequest>" in _norm(fx.tys(f.locals[i])) for i in range(1, f.argc + 1)):
+            has, allok = guarded_pushes(f)
+            if has and allok:
+                push_helpers.add(p)
+    for p, f in tops.items():
+        if "Vec<ImportRequest>" not in returns_ty(fx, f) or p in req_filters or p in dedupers or p in collectors or p in wrappers_of_collectors:
+            continue
+        has, allok0 = guarded_pushes(f)
+        via_helper = any(t[1].get("d") in push_helpers for bi, t in f.calls())
+        if (has and allok0) or (via_helper and (allok0 or not has)):
+            guarded_builders.add(p)
+    for p, f in ():
+        pushes = []
         if not pushes:
             continue
         allok = True
